@@ -55,7 +55,7 @@ def crit_fn(spec):
 
 def budget(tier):
     if tier == "quick":
-        return {"runs": 2400, "wall": 50, "chunk": 8}
+        return {"runs": 2400, "wall": 120, "chunk": 8}
     return {"runs": 70000, "wall": 1500, "chunk": 8}
 
 
